@@ -35,37 +35,38 @@ type interp struct {
 	trace   bool
 	race    *raceMon
 	// ghost state used by overrides
-	clock       *sym.Term
-	stamp       int
-	observes    []observation
-	chanCaps    map[string]int
-	tkSplits    [][]*sym.Term // region split keys of the TiKV model (ascending)
-	ttlSeq      int           // fresh names for the unknown second phases of TTL deadlines (Badger model)
-	logGates    []string      // substrings of structured log messages that are scheduling points
-	funcsSeen   map[*ssa.Function]int
-	stubsSeen   map[string]int
-	emitsSeen   map[string]int
-	syncMaps    map[*value]*syncMapState
-	opaques     map[string]*opaque
-	killed      bool
-	mutexes     map[*value]*mutexState
-	wgs         map[*value]*wgState
-	afterFuncs  []value
-	freeClock   bool
-	findingSet  map[string]bool
-	chooseLog   []chooseRec
-	nameCount   map[string]int
-	curWhere    string
-	curInstr    ssa.Instruction
-	curFr       *frame
-	tickers     []*channel
-	timedCtxs   []*ctxObj // live contexts made by WithTimeout / WithDeadline
-	promNames   map[string]string
-	skls        map[*value]*sklModel
-	httpHandler value
-	flights     map[*value]*sfCall
-	bigTaken    [][]value
-	lazyCells   []*value
+	clock         *sym.Term
+	stamp         int
+	observes      []observation
+	chanCaps      map[string]int
+	tkSplits      [][]*sym.Term // region split keys of the TiKV model (ascending)
+	tkOracleFault int           // the n-th following PD timestamp request fails (0: none)
+	ttlSeq        int           // fresh names for the unknown second phases of TTL deadlines (Badger model)
+	logGates      []string      // substrings of structured log messages that are scheduling points
+	funcsSeen     map[*ssa.Function]int
+	stubsSeen     map[string]int
+	emitsSeen     map[string]int
+	syncMaps      map[*value]*syncMapState
+	opaques       map[string]*opaque
+	killed        bool
+	mutexes       map[*value]*mutexState
+	wgs           map[*value]*wgState
+	afterFuncs    []value
+	freeClock     bool
+	findingSet    map[string]bool
+	chooseLog     []chooseRec
+	nameCount     map[string]int
+	curWhere      string
+	curInstr      ssa.Instruction
+	curFr         *frame
+	tickers       []*channel
+	timedCtxs     []*ctxObj // live contexts made by WithTimeout / WithDeadline
+	promNames     map[string]string
+	skls          map[*value]*sklModel
+	httpHandler   value
+	flights       map[*value]*sfCall
+	bigTaken      [][]value
+	lazyCells     []*value
 }
 
 type chooseRec struct {
